@@ -167,6 +167,30 @@ func Object(rng *rand.Rand) *object.Object {
 	return o
 }
 
+// MaxHeaderObject returns a valid object with ID, signature and payload whose header is
+// as long as object.MaxHeaderLen allows (exactly the limit or a few bytes below it).
+func MaxHeaderObject(rng *rand.Rand, maxPayload int) *object.Object {
+	o := new(object.Object)
+	o.SetID(verifkit.RandOID(rng))
+	o.SetSignature(genSig(rng))
+	payloadLen := 1 + rng.IntN(maxPayload)
+	fillHeader(rng, o, payloadLen, false)
+	o.SetPayloadSize(uint64(payloadLen))
+	o.SetPayload(verifkit.RandBytes(rng, payloadLen))
+	attrs := o.Attributes()
+	base := append(attrs[:len(attrs):len(attrs)], object.NewAttribute("pad", ""))
+	o.SetAttributes(base...)
+	pad := object.MaxHeaderLen - o.HeaderLen() - rng.IntN(3)
+	for ; pad > 0; pad-- {
+		base[len(base)-1] = object.NewAttribute("pad", randStr(rng, pad))
+		o.SetAttributes(base...)
+		if o.HeaderLen() <= object.MaxHeaderLen {
+			break
+		}
+	}
+	return o
+}
+
 // ---------------------------------------------------------------------------------
 // mutation
 
@@ -514,7 +538,8 @@ func (c *Collector) Guard(fn, kind string, input []byte, f func()) {
 				return
 			}
 			c.Count("panics", 1)
-			c.Violation(fmt.Sprintf("C41|%s|panic|%s", fn, fr), fmt.Sprintf("%s panicked on %s input of %d bytes: %v", fn, kind, len(input), p), kind, input, st)
+			keyFn, _, _ := strings.Cut(fn, "/") // "site/API": only the site names the class
+			c.Violation(fmt.Sprintf("C41|%s|panic|%s", keyFn, fr), fmt.Sprintf("%s panicked on %s input of %d bytes: %v", fn, kind, len(input), p), kind, input, st)
 		}
 	}()
 	f()
